@@ -93,8 +93,9 @@ type TxIn struct {
 }
 
 type EvIn struct {
-	Round  uint64 `json:"round"`
-	Signer int    `json:"signer"` // validator key index
+	Round    uint64 `json:"round"`
+	Signer   int    `json:"signer"`              // validator key index
+	SameHash bool   `json:"same_hash,omitempty"` // both signatures are for one hash: no offence
 }
 
 type BlockIn struct {
@@ -178,7 +179,7 @@ type BlockOut struct {
 	Number  uint64
 	Crashed string
 	Txs     []TxOut
-	Pool    [][2]int64 // evidence pool seen by EndBlock: (round, signer id)
+	Pool    [][3]int64 // evidence pool seen by EndBlock: (round, signer id, 1 = different hashes)
 	Obs     *Obs
 	Subsidy *big.Int
 	GasRew  *big.Int
@@ -598,7 +599,9 @@ func (w *World) runBlock(b *BlockIn) (out *BlockOut) {
 		tx := w.buildTx(st, t)
 		id := w.ntx
 		w.ntx++
-		w.txids[tx.Hash()] = id
+		if _, seen := w.txids[tx.Hash()]; !seen { // a byte-identical resubmission keeps the id of the first one
+			w.txids[tx.Hash()] = id
+		}
 		to := TxOut{ID: id, Nonce: tx.Nonce(), Price: t.Price}
 		conv := w.proc.GetConverter(tx.To())
 		to.IGas, _ = conv.IntrinsicGas(tx.Data(), tx.To())
@@ -657,25 +660,30 @@ func (w *World) runBlock(b *BlockIn) (out *BlockOut) {
 
 	// evidences reach the node; the sealing path of EndBlock processes the pool
 	if len(b.Evs) > 0 {
-		rounds, signers := staking.VerifEvidenceRoundsC07(w.stk)
+		rounds, signers, differ := staking.VerifEvidenceRoundsC07(w.stk)
 		var evs []staking.Evidence
 		for i := range rounds {
-			evs = append(evs, staking.VerifDoubleSignC07(rounds[i], signers[i]))
+			evs = append(evs, staking.VerifDoubleSignC07(rounds[i], signers[i], differ[i]))
 		}
 		for _, e := range b.Evs {
 			a := common.Address{}
 			if e.Signer >= 0 && e.Signer < len(w.vmain) {
 				a = w.vmain[e.Signer]
 			}
-			evs = append(evs, staking.VerifDoubleSignC07(e.Round, a))
+			evs = append(evs, staking.VerifDoubleSignC07(e.Round, a, !e.SameHash))
 		}
 		staking.VerifSetEvidencesC07(w.stk, evs)
 	}
-	rounds, signers := staking.VerifEvidenceRoundsC07(w.stk)
+	rounds, signers, differ := staking.VerifEvidenceRoundsC07(w.stk)
 	for i := range rounds {
-		out.Pool = append(out.Pool, [2]int64{int64(rounds[i]), w.id(signers[i])})
+		d := int64(0)
+		if differ[i] {
+			d = 1
+		}
+		out.Pool = append(out.Pool, [3]int64{int64(rounds[i]), w.id(signers[i]), d})
 	}
-	core.VerifSetHeadC07(w.bc, parent)
+	// the stub BlockChain's head stays at genesis on purpose: since ec9154c the evidences of a block are
+	// judged against header.Number-1, and a regression to the chain head would show as a disagreement
 	w.chain.head = parent
 
 	recs, _, _ := w.proc.EndBlock(w.chain, header, txs, st, true, local.FakeRecorder())
